@@ -1,12 +1,14 @@
 (* C16 - a RING reaction rule applies exactly its declared edit per match.
    Statements only (lemmas in Graph/Reaction_proofs.v).  PARTIAL: atom
    conservation, the frame property for atoms and the one-product-per-match
-   count are proved for every rule, molecule and match; that the edit on the
-   NAMED atoms/bonds is exactly the declared one, and that unbalanced rules
-   are rejected, is decided by the correspondence of the executable model
-   (rule reader with electron balance + edit application) on every run. *)
+   count are proved for every rule, molecule and match, and so is the
+   rejection of every rule that leaves a labelled atom unbalanced (against an
+   independent specification `contrib` of what each edit does to an atom's
+   electrons); that the edit on the NAMED atoms/bonds is exactly the declared
+   one is decided by the correspondence of the executable model (rule reader
+   + edit application) on every run. *)
 From Coq Require Import List NArith ZArith Arith Bool.
-From PG Require Import Common.Strs Graph.Mol Graph.Match Graph.Reaction Graph.Reaction_proofs.
+From PG Require Import Common.Strs Ring.Peg Ring.Reader Graph.Mol Graph.Match Graph.Reaction Graph.Reaction_proofs.
 Import ListNotations.
 
 (* the atoms of every element are conserved by every edit sequence that applies *)
@@ -29,6 +31,34 @@ Print Assumptions C16_apply_edit_frame_atoms.
 Theorem C16_one_product_per_match : forall r m,
   length (run_rule r m) = length (matches (r_frag r) m).
 Proof. exact one_product_per_match. Qed.
+
+(* A rule that is accepted leaves the electrons of EVERY labelled atom balanced:
+   rule_balance r k sums, over the rule's edits, the specification `contrib`
+   (bond formed: - its order's electrons on both ends; broken: + the order the
+   reactant pattern declares; order +-1: -+2; radical or charge +-1: -+2 ...),
+   all in doubled units so that aromatic = 3.  Equivalently, a rule with some
+   unbalanced labelled atom is rejected when read (whatever the other atoms do:
+   imbalances that cancel over the whole rule do not help). *)
+Theorem C16_accepted_rule_balanced : forall elements xlower t r,
+  read_rule elements xlower t = ROk' r ->
+  forall k, k < List.length (r_names r) -> rule_balance r k = 0%Z.
+Proof. exact accepted_rule_balanced. Qed.
+Print Assumptions C16_accepted_rule_balanced.
+
+Theorem C16_unbalanced_rule_rejected : forall elements xlower t r k,
+  k < List.length (r_names r) -> rule_balance r k <> 0%Z -> read_rule elements xlower t <> ROk' r.
+Proof. exact unbalanced_rule_rejected. Qed.
+Print Assumptions C16_unbalanced_rule_rejected.
+
+(* non-vacuity of the balance specification: C-H scission with both radical
+   increments is balanced on both labels; moving one increment to the other
+   atom keeps the total but unbalances both *)
+Example C16_balance_example :
+  let f := {| f_atoms := []; f_bonds := [(0, 1, BtSingle)]; f_bcons := []; f_acons := []; f_stereo := []; f_mol := [] |} in
+  let ok := {| r_frag := f; r_names := [[99%N]; [104%N]]; r_edits := [EBreak 0 1; ERadInc 0; ERadInc 1] |} in
+  let hop := {| r_frag := f; r_names := [[99%N]; [104%N]]; r_edits := [EBreak 0 1; ERadInc 0; ERadInc 0] |} in
+  (rule_balance ok 0 = 0 /\ rule_balance ok 1 = 0 /\ rule_balance hop 0 = -2 /\ rule_balance hop 1 = 2)%Z.
+Proof. vm_compute. repeat split; reflexivity. Qed.
 
 (* non-vacuity: C-H scission on the C-H of a two-atom graph *)
 Definition ch : mol :=
